@@ -163,7 +163,11 @@ fn compute_error_range(index: usize, input: &str) -> (usize, usize) {
   if index < bytes.len() {
     let ch = bytes[index];
     if !ch.is_ascii_whitespace() && ch != b';' {
-      let end = scan_token_end(bytes, index);
+      let mut end = scan_token_end(bytes, index);
+      // a single non-ASCII character is one token: never stop inside it
+      while !input.is_char_boundary(end) {
+        end += 1;
+      }
       if end > index {
         return (index, end);
       }
@@ -180,7 +184,11 @@ fn compute_error_range(index: usize, input: &str) -> (usize, usize) {
       if !ch.is_ascii_whitespace() && ch != b';' {
         // Found a non-ws char. Find the start of this token.
         let token_end = pos + 1;
-        let token_start = scan_token_start(bytes, pos);
+        let mut token_start = scan_token_start(bytes, pos);
+        // `pos` may be the last byte of a multi-byte character
+        while !input.is_char_boundary(token_start) {
+          token_start -= 1;
+        }
         return (token_start, token_end);
       }
     }
